@@ -435,12 +435,49 @@ func dedupe(s []string) []string {
 // c18r3: array indices and narrowing conversions in the mask / registry code.
 func c18r3(c *core.Ctx) {
 	m := c.M
-	scope := map[string]bool{"bitMask256": true, "bitMask64": true, "registry": true, "componentRegistry": true, "idMap": true}
+	scope := map[string]bool{"bitMask256": true, "bitMask64": true, "registry": true, "componentRegistry": true, "idMap": true, "Resources": true}
 	n := 0
 	for _, f := range m.Funcs {
 		if !scope[f.Recv] {
 			continue
 		}
+		// arithmetic carried out in the 8-bit id type itself must stay inside it: (id/8+1)*8 wraps to 0 for the
+		// highest ids. Only the outermost 8-bit sum, product or shift of an expression is evaluated.
+		inner := map[ast.Expr]bool{}
+		core.InspectNoLits(f.Body, func(x ast.Node) bool {
+			be, ok := x.(*ast.BinaryExpr)
+			if !ok || inner[be] {
+				return true
+			}
+			switch be.Op {
+			case token.ADD, token.MUL, token.SHL:
+			default:
+				return true
+			}
+			tv, ok := m.Info.Types[be]
+			if !ok || tv.Value != nil {
+				return true
+			}
+			if b, isB := tv.Type.Underlying().(*types.Basic); !isB || b.Kind() != types.Uint8 {
+				return true
+			}
+			ast.Inspect(be, func(y ast.Node) bool {
+				if e, ok := y.(*ast.BinaryExpr); ok && e != be {
+					inner[e] = true
+				}
+				return true
+			})
+			n++
+			e := &ivEval{c: c, f: f, at: be.Pos()}
+			r := e.eval(be)
+			subject := fmt.Sprintf("%s: %s", f.Name, m.ExprString(be))
+			if r.lo >= 0 && r.hi <= 255 && !r.wrap {
+				c.OK("C18/R3", subject, c.At(be.Pos()), fmt.Sprintf("8-bit arithmetic stays in range: [%g,%g]", r.lo, r.hi))
+			} else {
+				c.Violation("C18/R3", subject, c.At(be.Pos()), fmt.Sprintf("%s: %s is computed in the 8-bit id type and can leave it (range [%g,%g] before truncation); for the highest ids the result wraps", f.Name, m.ExprString(be), r.lo, r.hi))
+			}
+			return true
+		})
 		core.InspectNoLits(f.Body, func(x ast.Node) bool {
 			switch y := x.(type) {
 			case *ast.IndexExpr:
@@ -516,10 +553,12 @@ func c18r4(c *core.Ctx) {
 			continue
 		}
 		var store *ast.AssignStmt
+		var ix *ast.IndexExpr
 		core.InspectNoLits(f.Body, func(x ast.Node) bool {
-			if as, ok := x.(*ast.AssignStmt); ok && len(as.Lhs) == 1 {
-				if ix, ok := ast.Unparen(as.Lhs[0]).(*ast.IndexExpr); ok && fieldKeyOf(m, ix.X) == "Resources.resources" {
-					store = as
+			if as, ok := x.(*ast.AssignStmt); ok && len(as.Lhs) == 1 && len(as.Rhs) == 1 && as.Tok == token.ASSIGN {
+				// the slot itself, or a local pointer to it (slot := &r.resources[id.id]; *slot = res)
+				if i2, ok := ast.Unparen(m.Inline(as.Lhs[0])).(*ast.IndexExpr); ok && fieldKeyOf(m, i2.X) == "Resources.resources" {
+					store, ix = as, i2
 				}
 			}
 			return true
@@ -527,7 +566,6 @@ func c18r4(c *core.Ctx) {
 		if store == nil || f.Sig.Params().Len() == 0 {
 			continue
 		}
-		ix := ast.Unparen(store.Lhs[0]).(*ast.IndexExpr)
 		slot := m.ExprString(ix)
 		isClear := m.ExprString(store.Rhs[0]) == "nil"
 		subject := f.Name
@@ -537,28 +575,11 @@ func c18r4(c *core.Ctx) {
 		if sel, ok := ast.Unparen(ix.Index).(*ast.SelectorExpr); ok && fieldKeyOf(m, sel) == "ResID.id" {
 			okIdx = true
 		}
-		// guard: `if slot != nil { panic }` for adding; `if slot == nil { panic }` for clearing
+		// guard, decided on paths: the store that adds is reached only with the slot known to be empty, the store
+		// that clears only with it known to be occupied (whatever the if / else / early-return form of the test)
 		guarded := false
-		for _, st := range f.Body.List {
-			is, ok := st.(*ast.IfStmt)
-			if !ok || st.Pos() > store.Pos() {
-				continue
-			}
-			be, ok := ast.Unparen(is.Cond).(*ast.BinaryExpr)
-			if !ok || m.ExprString(be.X) != slot || m.ExprString(be.Y) != "nil" {
-				continue
-			}
-			pan := false
-			for _, s2 := range is.Body.List {
-				if es, ok := s2.(*ast.ExprStmt); ok {
-					if call, ok := es.X.(*ast.CallExpr); ok && m.IsBuiltin(call, "panic") {
-						pan = true
-					}
-				}
-			}
-			if pan && ((isClear && be.Op == token.EQL) || (!isClear && be.Op == token.NEQ)) {
-				guarded = true
-			}
+		if v, known := knownAtoms(m, f, store)[slot+"==nil"]; known && v == !isClear {
+			guarded = true
 		}
 		if okIdx && guarded {
 			c.OK("C18/R4", subject, c.At(f.Pos()), "slot indexed by the resource id and tested before it is written")
